@@ -170,6 +170,15 @@ func r10a(c *core.Ctx) {
 			}
 		}
 	})
+	// or no merge at all: the no-match path left the function inside the loop's exit (the selecting helper was expanded
+	// and its `nil` return threaded into the caller's refusal), and what is used afterwards is the element itself
+	if !sel {
+		core.EachInstr(hr, func(_ *ssa.BasicBlock, _ int, in ssa.Instruction) {
+			if fa, ok := in.(*ssa.FieldAddr); ok && core.FieldAddrRef(fa).Name == "reject" && core.Expr(fa.X) == rule {
+				sel = true
+			}
+		})
+	}
 	c.Check(sel, "selected-is-matching-rule", match.Pos(), hr, "matchedRule is the rule whose condition held", "")
 }
 
